@@ -87,6 +87,10 @@ def ann(t: T) -> str:
         return f"Optional[{ann(t.args[0])}]"
     if k == "union":
         return "Union[" + ", ".join(ann(x) for x in t.args[0]) + "]"
+    if k == "selfopt":
+        return f'Optional["{t.name}"]'
+    if k == "selflist":
+        return f'List["{t.name}"]'
     raise ValueError(k)
 
 
@@ -113,7 +117,7 @@ def kinds_deep(t: T, S, acc=None, seen=None) -> set:
             seen.add(k.name)
             for _, ft, d in S.classes[k.name]["fields"]:
                 kinds_deep(ft, S, acc, seen)
-                if k.kind == "dc" and ft.kind == "opt":
+                if k.kind == "dc" and ft.kind in ("opt", "selfopt"):
                     acc.add("optional-field-default-" + ("none" if d == "None" else ("missing" if d is None else "other")))
         for a in k.args:
             if isinstance(a, T):
@@ -196,6 +200,11 @@ class Schema:
         for i in range(nf):
             t = self.gen_type(depth - 1)
             fields.append([f"{prefix}{name.lower()}_{i}", t, None])
+        if not self.small and base is None and r.random() < 0.10:
+            if r.random() < 0.6:
+                fields.append([f"{prefix}{name.lower()}_self", T("selfopt", name=name), "None"])
+            else:
+                fields.append([f"{prefix}{name.lower()}_self", T("selflist", name=name), "field(default_factory=list)"])
         # defaults: Optional fields mostly default to None; a few stay required, a few get a non-None default
         for f in fields:
             t = f[1]
@@ -446,6 +455,11 @@ def gen_value(t: T, S: Schema, mod, r, depth=0):
         return gen_value(t.args[0], S, mod, r, depth)
     if k == "union":
         return gen_value(r.choice(t.args[0]), S, mod, r, depth)
+    if k in ("selfopt", "selflist"):
+        deep = depth > 6 or r.random() < 0.55
+        if k == "selfopt":
+            return None if deep else gen_value(T("dc", name=t.name), S, mod, r, depth + 3)
+        return [] if deep else [gen_value(T("dc", name=t.name), S, mod, r, depth + 3) for _ in range(r.choice([1, 2]))]
     if k == "dc":
         cls = getattr(mod, t.name)
         kw = {f: gen_value(ft, S, mod, r, depth + 1) for f, ft, _ in S.classes[t.name]["fields"]}
